@@ -29,7 +29,15 @@ def reset_vars():
 
 
 def declare_quadratic(name, c):
-    """v*v == c is applied as a rewrite rule in every product (value preserving: it is an axiom of v)"""
+    """v*v == c is applied as a rewrite rule in every product (value preserving: it is an axiom of v).
+    c is a rational, or a polynomial in OTHER variables (a tower: e.g. sin^2 -> 1 - cos^2, b^2 -> 2 + a)"""
+    if isinstance(c, Poly):
+        if c.is_const():
+            c = c.const_value()
+        else:
+            assert all(-nv != _VAR_INDEX[name] for m in c.t for nv, e in m)
+            _QUAD[_VAR_INDEX[name]] = c
+            return
     _QUAD[_VAR_INDEX[name]] = Fraction(c)
 
 
@@ -37,15 +45,29 @@ def _reduce_quad(t):
     out = {}
     for m, c in t.items():
         nm = None
+        pf = None           # polynomial-valued squares met in this monomial
         for pos, (nv, e) in enumerate(m):
             q = _QUAD.get(-nv)
             if q is not None and e >= 2:
                 if nm is None:
                     nm = list(m)
-                c = c * q ** (e // 2)
+                if isinstance(q, Poly):
+                    pf = (q ** (e // 2)) if pf is None else pf * (q ** (e // 2))
+                else:
+                    c = c * q ** (e // 2)
                 nm[pos] = (nv, e % 2)
         if nm is not None:
             m = tuple(x for x in nm if x[1])
+        if pf is not None:
+            # monomial * polynomial: the product is reduced again by Poly.__mul__
+            for m2, c2 in (Poly({m: c}) * pf).t.items():
+                v = out.get(m2)
+                v = c2 if v is None else v + c2
+                if v == 0:
+                    out.pop(m2, None)
+                else:
+                    out[m2] = v
+            continue
         v = out.get(m)
         if v is None:
             out[m] = c
